@@ -816,10 +816,12 @@ func (x *Exec) baseEnv(st *State, fr *Frame) *Env {
 			return st.cells[best], true
 		}
 		// heap-allocated (escaping) locals
-		for _, in := range fr.fn.Blocks[0].Instrs {
-			if a, ok := in.(*ssa.Alloc); ok && a.Heap && a.Comment == name {
-				if pv, ok := fr.regs[a]; ok {
-					return x.loadQuiet(st, pv), true
+		for _, b := range fr.fn.Blocks {
+			for _, in := range b.Instrs {
+				if a, ok := in.(*ssa.Alloc); ok && a.Heap && a.Comment == name {
+					if pv, ok := fr.regs[a]; ok {
+						return x.loadQuiet(st, pv), true
+					}
 				}
 			}
 		}
